@@ -188,6 +188,27 @@ theorem stored_error_keeps_code (k : CtxKind) (first : GoError) (hk : first.isCt
   simp only [envelopePrefixError, hne, Bool.false_and, Bool.false_eq_true, if_false, hc]
   exact hcode
 
+/-- **only_context_errors_are_classified**: `wrapIfContextError` - the one place where the handler's
+    outcome and the client's transport errors are classified as canceled / deadline_exceeded -
+    leaves every error alone that is not, by `errors.Is`, one of the two context errors: an
+    error that merely *looks* like a timeout (an I/O deadline of the application's own, an error
+    wrapping `io.EOF`, an RST) stays what it is, and so does every coded error, `unknown`
+    included (its metadata and details travel with it). -/
+theorem only_context_errors_are_classified (e : GoError)
+    (h : (e.isCtx .canceled = false ∧ e.isCtx .deadline = false) ∨ e.asError.isSome = true) :
+    wrapIfContextError e = e := by
+  unfold wrapIfContextError
+  rcases h with ⟨h1, h2⟩ | h
+  · cases ha : e.asError <;> simp [h1, h2]
+  · cases ha : e.asError with
+    | none => simp [ha] at h
+    | some c => rfl
+
+/-- … in particular an Unknown-coded error whose cause is a context error keeps its identity -/
+example : wrapIfContextError (.coded codeUnknown (.wrap (.ctx .canceled))) = .coded codeUnknown (.wrap (.ctx .canceled)) := by decide
+/-- … and an uncoded error wrapping io.EOF is not classified at all -/
+example : (wrapIfUncoded (wrapIfContextError (.wrap .eof))).codeOf = codeUnknown := by decide
+
 /-- **send_ctx_code (prefix write)**: `Send` on a call whose context is done fails at the first
     `Write` (the envelope prefix) with canceled / deadline_exceeded. -/
 theorem send_ctx_code_prefix (k : CtxKind) :
